@@ -38,6 +38,17 @@ type c09Case struct {
 	Kind   string     `json:"kind"`
 	Rounds []c09Round `json:"rounds,omitempty"`
 	Gated  string     `json:"gated,omitempty"` // detached-leaf | double-cleanup | cleanup-vs-insert | cleanup-vs-retain | resub-vs-publish | dup-unsub-behind-writer
+	// kind "replace": K retained publishes (QoS RQoS, tags 1..K, never empty) on one topic by one goroutine while another
+	// reads Retained(topic) all the time: the topic has a retained message at every moment of every linearization
+	K    int `json:"k,omitempty"`
+	RQoS int `json:"rqos,omitempty"`
+}
+
+type c09Replace struct {
+	Reads    int   `json:"reads"`
+	Empty    int   `json:"empty"`
+	Monotone bool  `json:"monotone"`
+	Final    []int `json:"final"`
 }
 
 type c09RoundObs struct {
@@ -48,6 +59,7 @@ type c09RoundObs struct {
 
 type c09Obs struct {
 	Rounds []c09RoundObs `json:"rounds"`
+	Rep    *c09Replace   `json:"rep,omitempty"`
 	Err    string        `json:"err,omitempty"`
 }
 
@@ -121,6 +133,9 @@ func (p *c09Prop) Gen(r *Rng, i int, tier string) interface{} {
 			return &c09Case{Kind: "gated", Gated: "dup-unsub-behind-writer"}
 		}
 		return &c09Case{Kind: "gated", Gated: "cleanup-vs-insert"}
+	}
+	if i%8 == 3 {
+		return &c09Case{Kind: "replace", K: 200 + r.Intn(400), RQoS: r.Intn(2)}
 	}
 	c := &c09Case{Kind: "rounds"}
 	// a small pool of shared and nested filters: create / prune of the same branches all the time
@@ -301,6 +316,9 @@ func (p *c09Prop) Run(ci interface{}) interface{} {
 	c := ci.(*c09Case)
 	if c.Kind == "gated" {
 		return p.runGated(c)
+	}
+	if c.Kind == "replace" {
+		return p.runReplace(c)
 	}
 	obs := &c09Obs{}
 	e, err := newC09Env(nil)
@@ -658,6 +676,87 @@ func (p *c09Prop) runGated(c *c09Case) interface{} {
 
 func (p *c09Prop) Suspect(oi interface{}) bool { return oi.(*c09Obs).Err != "" }
 
+func (p *c09Prop) runReplace(c *c09Case) interface{} {
+	obs := &c09Obs{}
+	e, err := newC09Env(nil)
+	if err != nil {
+		obs.Err = err.Error()
+		return obs
+	}
+	defer e.prov.Shutdown()
+	const topic = "rp/t"
+	mk := func(tag int) *mqttp.Publish {
+		m := mqttp.NewPublish(mqttp.ProtocolV311)
+		_ = m.Set(topic, []byte{byte(tag >> 8), byte(tag)}, mqttp.QosType(c.RQoS), true, false)
+		return m
+	}
+	tagOf := func(r []*mqttp.Publish) int {
+		if len(r) != 1 || len(r[0].Payload()) < 2 {
+			return 0
+		}
+		return int(r[0].Payload()[0])<<8 | int(r[0].Payload()[1])
+	}
+	_ = e.prov.Retain(mk(1))
+	deadline := time.Now().Add(5 * time.Second)
+	for {
+		if r, _ := e.prov.Retained(topic); tagOf(r) == 1 {
+			break
+		}
+		if time.Now().After(deadline) {
+			obs.Err = "the first retained message never became visible"
+			return obs
+		}
+		time.Sleep(50 * time.Microsecond)
+	}
+	done := make(chan struct{})
+	go func() {
+		for tag := 2; tag <= c.K; tag++ {
+			_ = e.prov.Retain(mk(tag))
+			if tag%16 == 0 {
+				time.Sleep(20 * time.Microsecond) // keep the retainer's channel short: the reads spread over the whole run
+			}
+		}
+		close(done)
+	}()
+	rep := &c09Replace{Monotone: true}
+	last := 1
+	read := func() int {
+		r, _ := e.prov.Retained(topic)
+		t := tagOf(r)
+		rep.Reads++
+		if t == 0 {
+			rep.Empty++
+		} else {
+			if t < last {
+				rep.Monotone = false
+			}
+			last = t
+		}
+		return t
+	}
+	for running := true; running; {
+		select {
+		case <-done:
+			running = false
+		default:
+			read()
+		}
+	}
+	// the retainer goroutine may still be working its channel off
+	deadline = time.Now().Add(5 * time.Second)
+	for read() != c.K && time.Now().Before(deadline) {
+	}
+	r, _ := e.prov.Retained(topic)
+	rep.Final = []int{}
+	for _, m := range r {
+		if len(m.Payload()) >= 2 {
+			rep.Final = append(rep.Final, (int(m.Payload()[0])<<8|int(m.Payload()[1]))*4+int(m.QoS()))
+		}
+	}
+	obs.Rep = rep
+	return obs
+}
+
 func c09OpTerm(op c01Op) string {
 	switch op.Op {
 	case "sub":
@@ -665,7 +764,7 @@ func c09OpTerm(op c01Op) string {
 	case "unsub":
 		return fmt.Sprintf("(OUnsub %s %d)", cBytes([]byte(op.F)), op.S)
 	default:
-		return fmt.Sprintf("(ORetain %s (mkMsg %d %d false) %s)", cBytes([]byte(op.F)), op.Tag, op.QoS, cBool(op.Empty))
+		return fmt.Sprintf("(ORetain %s (mkMsg %d %d false) %s true)", cBytes([]byte(op.F)), op.Tag, op.QoS, cBool(op.Empty))
 	}
 }
 
@@ -675,6 +774,13 @@ func (p *c09Prop) Coq(ci interface{}, oi interface{}) string {
 	rounds := c.Rounds
 	if c.Kind == "gated" {
 		rounds = p.gatedRounds(c.Gated)
+	}
+	if c.Kind == "replace" {
+		if o.Rep == nil {
+			return "(mkCase9 [] false)"
+		}
+		return fmt.Sprintf("(mkCase9 [HReplace %s %d %d %d %d %s; HRetQ9 %s %s] %s)", cBytes([]byte("rp/t")), c.RQoS, c.K, o.Rep.Reads, o.Rep.Empty, cBool(o.Rep.Monotone),
+			cBytes([]byte("rp/t")), cInts(o.Rep.Final), cBool(o.Err == ""))
 	}
 	hs := []string{}
 	for i, rd := range rounds {
@@ -711,6 +817,9 @@ func (p *c09Prop) Class(ci interface{}, oi interface{}) (string, bool) {
 	c := ci.(*c09Case)
 	if c.Kind == "gated" {
 		return "gated-" + c.Gated, true
+	}
+	if c.Kind == "replace" {
+		return fmt.Sprintf("replace-qos%d", c.RQoS), true
 	}
 	n := 0
 	for _, rd := range c.Rounds {
